@@ -31,6 +31,7 @@ type vPackCase struct {
 	LabelLen int    `json:"labelLen"`
 	Enc      string `json:"enc"` // none | v0 | v1
 	Vout     bool   `json:"vout"`
+	Vin      bool   `json:"vin"` // the sender's own incoming verification (independent of what it seals)
 	Crc      bool   `json:"crc"`
 	Comp     bool   `json:"comp"`
 	Member   []int  `json:"member"`   // metadata sizes of queued alive broadcasts
@@ -93,7 +94,7 @@ func (d *vPackDelegate) GetBroadcasts(overhead, limit int) [][]byte {
 	return out
 }
 
-func vPackNode(t *testing.T, nw *vNet, name string, ip net.IP, c vPackCase, d *vPackDelegate) *Memberlist {
+func vPackNode(t *testing.T, nw *vNet, name string, ip net.IP, c vPackCase, d *vPackDelegate, sender bool) *Memberlist {
 	conf := DefaultLANConfig()
 	conf.Name = name
 	conf.BindPort, conf.AdvertisePort = 7946, 7946
@@ -103,6 +104,9 @@ func vPackNode(t *testing.T, nw *vNet, name string, ip net.IP, c vPackCase, d *v
 	conf.EnableCompression = c.Comp
 	conf.GossipVerifyOutgoing = c.Vout
 	conf.GossipVerifyIncoming = c.Vout // a sender that does not seal needs a receiver that accepts plaintext
+	if sender {
+		conf.GossipVerifyIncoming = c.Vin
+	}
 	conf.GossipNodes = 1
 	if c.Enc != "none" {
 		kr, _ := NewKeyring(nil, vWKeys["k1"])
@@ -129,8 +133,8 @@ func vRunPack(t *testing.T, s *vSink, id int, c vPackCase) (l vPackLine) {
 	nw := vNewNet(int64(id))
 	ipA, ipB := net.IPv4(10, 0, 0, 1).To4(), net.IPv4(10, 0, 0, 2).To4()
 	dA, dB := &vPackDelegate{fill: c.FillUser}, &vPackDelegate{}
-	A := vPackNode(t, nw, ipA.String(), ipA, c, dA)
-	B := vPackNode(t, nw, ipB.String(), ipB, c, dB)
+	A := vPackNode(t, nw, ipA.String(), ipA, c, dA, true)
+	B := vPackNode(t, nw, ipB.String(), ipB, c, dB, false)
 	nB := s.register(B, vCfg{Mult: 4, MaxMult: 6, Interval: 1000}, nil, "", nil)
 	nB.created = true
 	defer func() {
